@@ -2267,3 +2267,85 @@ def unmap_structural(tree, resolve_def):
             ast.fix_missing_locations(fn)
             done.append('%s:%s' % (getattr(fn, 'name', '?'), call.func.id))
     return done
+
+
+# ---------------------------------------------------------------------------------------------------------------------
+# a fold over trees written once as a function
+# ---------------------------------------------------------------------------------------------------------------------
+def _tree_fold_shape(fn):
+    """is fn `def F(t, leaf, inner): if t.is_leaf: return leaf(t); return inner(t, [F(c, leaf, inner) for c in t.children])`
+    (or the if/else form)?  -> True"""
+    if not isinstance(fn, ast.FunctionDef) or fn.decorator_list or len(fn.args.args) != 3 or fn.args.vararg or fn.args.kwarg or fn.args.kwonlyargs:
+        return False
+    t, a, b = [x.arg for x in fn.args.args]
+    body = [s for s in fn.body if not _is_doc(s)]
+    if len(body) == 1 and isinstance(body[0], ast.If) and len(body[0].orelse) == 1:
+        body = [ast.If(test=body[0].test, body=body[0].body, orelse=[]), body[0].orelse[0]]
+    if len(body) != 2 or not isinstance(body[0], ast.If) or body[0].orelse or len(body[0].body) != 1 or not isinstance(body[0].body[0], ast.Return) or not isinstance(body[1], ast.Return):
+        return False
+    if ast.unparse(body[0].test).replace(' ', '') != '%s.is_leaf' % t:
+        return False
+    if ast.unparse(body[0].body[0].value).replace(' ', '') != '%s(%s)' % (a, t):
+        return False
+    got = ast.unparse(body[1].value).replace(' ', '').replace('\n', '')
+    import re as _re
+    return bool(_re.match(r'^%s\(%s,\[%s\((\w+),%s,%s\)for\1in%s\.children\]\)$' % tuple(_re.escape(x) for x in (b, t, fn.name, a, b, t)), got))
+
+
+def unfold_tree_folds(tree, resolve_def):
+    """`fold_tree(tree, leaf, inner)` -- the value of a tree from the values of its subtrees -- reads as the recursive
+    closure it abbreviates: at a call site F(E, L, I) with L and I functions of this module (or lambdas)
+        def rec(node): if node.is_leaf: <body of L for node> else: children = [rec(child) for child in node.children]; <body of I for node, children>
+    is defined next to the call, which becomes rec(E)."""
+    done = []
+    tops = {f.name: f for f in tree.body if isinstance(f, ast.FunctionDef)}
+    for fn in [f for f in tree.body if isinstance(f, ast.FunctionDef)]:
+        for body, i, s in list(_own_statements(fn)):
+            if not isinstance(s, (ast.Return, ast.Assign, ast.Expr)) or getattr(s, 'value', None) is None:
+                continue
+            calls = [c for c in ast.walk(s.value) if isinstance(c, ast.Call) and isinstance(c.func, ast.Name) and len(c.args) == 3 and not c.keywords]
+            calls = [c for c in calls if (lambda d: d is not None and d is not fn and _tree_fold_shape(d))(resolve_def(c.func.id))]
+            if len(calls) != 1:
+                continue
+            call = calls[0]
+            used = {n.id for n in ast.walk(fn) if isinstance(n, ast.Name)} | {a.arg for a in fn.args.args}
+            rec_name = 'rec' if 'rec' not in used else '%s__rec' % call.func.id
+            node, children = 'node' if 'node' not in used else 'fold__node', 'children' if 'children' not in used else 'fold__children'
+
+            def part(F, params):
+                if isinstance(F, ast.Lambda) and len(F.args.args) == len(params):
+                    return [ast.Return(value=_Subst(names={a.arg: _name(p) for a, p in zip(F.args.args, params)}).visit(_clone(F.body)))]
+                if isinstance(F, ast.Name) and F.id in tops and tops[F.id] is not fn:
+                    d = tops[F.id]
+                    if len(d.args.args) == len(params) and not d.decorator_list and not d.args.vararg and not d.args.kwarg \
+                            and not any(isinstance(n, (ast.Yield, ast.YieldFrom, ast.Global, ast.Nonlocal)) for n in ast.walk(d)):
+                        stored = {n.id for n in ast.walk(d) if isinstance(n, ast.Name) and isinstance(n.ctx, ast.Store)}
+                        if not (stored & {a.arg for a in d.args.args}):
+                            ren = {a.arg: _name(p) for a, p in zip(d.args.args, params)}
+                            return [_Subst(names=ren).visit(_clone(st_)) for st_ in d.body if not _is_doc(st_)]
+                if isinstance(F, ast.Name):
+                    return [ast.Return(value=ast.Call(func=_name(F.id), args=[_name(p) for p in params], keywords=[]))]
+                return None
+            leaf, inner = part(call.args[1], [node]), part(call.args[2], [node, children])
+            if leaf is None or inner is None:
+                continue
+            comp = ast.ListComp(elt=ast.Call(func=_name(rec_name), args=[_name('child')], keywords=[]),
+                                generators=[ast.comprehension(target=_name('child', ast.Store()), iter=ast.Attribute(value=_name(node), attr='children', ctx=ast.Load()), ifs=[], is_async=0)])
+            rec_def = ast.FunctionDef(
+                name=rec_name,
+                args=ast.arguments(posonlyargs=[], args=[ast.arg(arg=node)], kwonlyargs=[], kw_defaults=[], defaults=[]),
+                body=[ast.If(test=ast.Attribute(value=_name(node), attr='is_leaf', ctx=ast.Load()), body=leaf,
+                             orelse=[ast.Assign(targets=[_name(children, ast.Store())], value=comp)] + inner)],
+                decorator_list=[], returns=None, type_comment=None)
+            if hasattr(ast, 'TypeVar'):
+                rec_def.type_params = []
+            call.func = _name(rec_name)
+            call.args = [call.args[0]]
+            body.insert(body.index(s), rec_def)
+            for n in ast.walk(rec_def):
+                if isinstance(n, (ast.stmt, ast.expr)) and not hasattr(n, 'lineno'):
+                    n.lineno = n.end_lineno = s.lineno
+                    n.col_offset = n.end_col_offset = 0
+            ast.fix_missing_locations(fn)
+            done.append('%s:%s' % (fn.name, rec_name))
+    return done
